@@ -59,6 +59,10 @@ func (this *ONTHandler) SyncGenesisHeader(native *native.NativeService) error {
 	if err != nil {
 		return fmt.Errorf("ONTHandler SyncGenesisHeader, deserialize header err: %v", err)
 	}
+	if raw, _ := native.GetCacheDB().Get(utils.ConcatKey(utils.HeaderSyncContractAddress, []byte(hscommon.CURRENT_HEADER_HEIGHT),
+		utils.GetUint64Bytes(params.ChainID))); raw != nil {
+		return fmt.Errorf("ONTHandler SyncGenesisHeader, genesis header had been initialized")
+	}
 	//block header storage
 	err = PutBlockHeader(native, params.ChainID, header)
 	if err != nil {
